@@ -22,32 +22,18 @@ Proof.
   - apply IH; [exact Hd'|]. intros e1 e2 H1 H2. apply Hk; right; assumption.
 Qed.
 
-(** true arithmetic of the gas-limit bound when the parent's limit fits an int64 *)
-Lemma gas_bound_math pg gl : pg < two63 -> gl <= 9223372036854775807 ->
+(** the gas-limit bound in ordinary arithmetic *)
+Lemma gas_bound_math pg gl :
   gas_bound_bad pg gl = false <->
   (if gl <=? pg then pg - gl else gl - pg) < pg / 256 /\ 5000 <= gl.
 Proof.
-  intros Hp Hg. unfold gas_bound_bad, gasLimitBoundDivisor, minGasLimit, i64_of_u64, u64_of_i64, wrap_i64, two63 in *.
+  unfold gas_bound_bad, gasLimitBoundDivisor, minGasLimit.
   rewrite orb_false_iff, N.leb_gt, N.ltb_ge.
-  assert (E1 : ((Z.of_N pg + 9223372036854775808) mod 18446744073709551616 - 9223372036854775808 = Z.of_N pg)%Z).
-  { rewrite Z.mod_small; lia. }
-  assert (E2 : ((Z.of_N gl + 9223372036854775808) mod 18446744073709551616 - 9223372036854775808 = Z.of_N gl)%Z).
-  { rewrite Z.mod_small; lia. }
-  rewrite E1, E2.
-  assert (E3 : ((Z.of_N pg - Z.of_N gl + 9223372036854775808) mod 18446744073709551616 - 9223372036854775808
-                = Z.of_N pg - Z.of_N gl)%Z).
-  { rewrite Z.mod_small; lia. }
-  rewrite E3.
-  destruct (gl <=? pg) eqn:EL; [apply N.leb_le in EL | apply N.leb_gt in EL].
-  - destruct (Z.of_N pg - Z.of_N gl <? 0)%Z eqn:EN; [apply Z.ltb_lt in EN; lia|].
-    rewrite (Z.mod_small (Z.of_N pg - Z.of_N gl)) by lia.
-    assert (Z.to_N (Z.of_N pg - Z.of_N gl) = pg - gl) by lia. rewrite H. tauto.
-  - destruct (Z.of_N pg - Z.of_N gl <? 0)%Z eqn:EN; [|apply Z.ltb_ge in EN; lia].
-    assert (E4 : (((Z.of_N pg - Z.of_N gl) * -1 + 9223372036854775808) mod 18446744073709551616 - 9223372036854775808
-                  = Z.of_N gl - Z.of_N pg)%Z).
-    { rewrite Z.mod_small; lia. }
-    rewrite E4. rewrite (Z.mod_small (Z.of_N gl - Z.of_N pg)) by lia.
-    assert (Z.to_N (Z.of_N gl - Z.of_N pg) = gl - pg) by lia. rewrite H. tauto.
+  assert (E : (if gl <? pg then pg - gl else gl - pg) = (if gl <=? pg then pg - gl else gl - pg)).
+  { destruct (gl <? pg) eqn:E1; destruct (gl <=? pg) eqn:E2; try reflexivity.
+    - apply N.ltb_lt in E1. apply N.leb_gt in E2. lia.
+    - apply N.ltb_ge in E1. apply N.leb_le in E2. lia. }
+  rewrite E. tauto.
 Qed.
 
 Section Thm.
@@ -227,3 +213,45 @@ Section Thm.
   Qed.
 
 End Thm.
+
+(** * what a rejected raw call leaves behind *)
+Section Rejected.
+  Variable HH : header -> bytes.
+  Variable ER : N -> header -> option bytes.
+
+  Lemma update_after_verify cs st0 st h signer :
+    accept_conds HH ER cs st0 h signer -> exists st' r, update cs st h = (st', ROk r).
+  Proof.
+    intro A. unfold update, extraVanity, extraSeal, addressLength.
+    pose proof (ac_epoch _ _ _ _ _ _ A) as E0. apply N.eqb_neq in E0. rewrite E0.
+    pose proof (ac_vals_bytes _ _ _ _ _ _ A) as B. pose proof (ac_extra _ _ _ _ _ _ A) as B1.
+    destruct (h_num h mod c_epoch cs =? 0).
+    - assert (E1 : len (h_extra h) <? 32 + 65 = false) by (apply N.ltb_ge; lia). rewrite E1.
+      apply N.eqb_eq in B. rewrite B. cbn [negb]. cbv zeta.
+      destruct (h_num h mod c_epoch cs =? len (c_vals cs) / 2); [destruct (_ <? _)|]; eexists; eexists; reflexivity.
+    - cbv zeta. destruct (h_num h mod c_epoch cs =? len (c_vals cs) / 2); [destruct (_ <? _)|]; eexists; eexists; reflexivity.
+  Qed.
+
+  (** A rejected (or panicking) CheckHeaderAndUpdateState leaves the store as it was, except that a header
+      failing only the difficulty test (error 13) leaves the recent-signer entry written by SetSigner — the
+      reason why the call must run inside a transaction ([deliver]). *)
+  Theorem rejected_writes bt cs st h st' :
+    (exists k, check_header_and_update HH ER bt cs st h = (st', RErr k)) \/
+    check_header_and_update HH ER bt cs st h = (st', RPanic) ->
+    st' = st \/
+    exists signer, sealer ER (c_chain cs) h = Some signer /\ st' = set_signer st (hheight h) signer /\
+                   check_header_and_update HH ER bt cs st h = (st', RErr 13).
+  Proof.
+    unfold check_header_and_update, check_header_and_update_gen.
+    destruct (get_cons st (hheight (c_header cs))); [|intros [[k H]|H]; inversion H; auto].
+    destruct (verify_pre_gen HH ER recently_signed cs st h) as [signer| |] eqn:V;
+      [|intros [[k H]|H]; inversion H; auto | intros [[k H]|H]; inversion H; auto].
+    pose proof (verify_pre_ok _ _ _ _ _ _ V) as A.
+    unfold verify_post, diffInTurn, diffNoTurn.
+    destruct (update_after_verify cs st (prune bt cs (set_signer st (hheight h) signer)) h signer A) as (s2 & r & EU).
+    destruct (inturn cs signer); destruct (N_of_bytes (h_diff h) =? _);
+      try (rewrite EU; intros [[k H]|H]; discriminate H);
+      intros [[k H]|H]; inversion H; subst; right; exists signer;
+      (split; [apply (ac_sealer _ _ _ _ _ _ A) | split; reflexivity]).
+  Qed.
+End Rejected.
